@@ -63,6 +63,11 @@ func getStats(prop string) *PropStats {
 	return s
 }
 
+func shortHash(s string) string {
+	h := sha256.Sum256([]byte(s))
+	return hex.EncodeToString(h[:8])
+}
+
 // shapeOf hashes what makes a case distinct: the sequence of (kind, ok) plus class labels.
 func shapeOf(m *Machine, extra ...string) string {
 	h := sha256.New()
@@ -169,6 +174,8 @@ type WorldProp struct {
 	Tail func(m *Machine) []Action
 	// Known returns the id of the known finding a violation matches, or "".
 	Known func(m *Machine, v *Violation) string
+	// Adapt switches on exclusions-by-construction for the listed findings that still reproduce.
+	Adapt func(g *GenOpts, active map[string]bool, st *PropStats)
 }
 
 var worldProps = map[string]*WorldProp{}
@@ -218,7 +225,15 @@ func runCase(t failer, p *WorldProp, cfg sim.Config, next func(m *Machine, i int
 			t.Fatalf("VIOLATION %s\nhistory: %s", v.Error(), historyString(m))
 		case errors.As(err, &h):
 			// a halt is C11's subject; for every other property the case ends without verdict
-			if p.ID == "C11" {
+			if p.ID == "C11" && !strings.Contains(h.Value, "out of scope") {
+				if p.Known != nil {
+					if id := p.Known(m, &Violation{ID: "C11.I1.halt", Msg: h.Error()}); id != "" {
+						statsMu.Lock()
+						st.Excluded[id]++
+						statsMu.Unlock()
+						return true
+					}
+				}
 				cf.Violation = "C11.I1.halt: " + h.Error()
 				t.Fatalf("VIOLATION C11.I1.halt: %s\n%s\nhistory: %s", h.Error(), h.Stack, historyString(m))
 			}
@@ -299,6 +314,9 @@ func runWorldProp(t *testing.T, id string) {
 		cfg := p.Config(rt)
 		n := rapid.IntRange(p.MinSteps, p.MaxSteps).Draw(rt, "steps")
 		g := p.Gen
+		if p.Adapt != nil {
+			p.Adapt(&g, activeKnown[p.ID], getStats(p.ID))
+		}
 		runCase(rt, p, cfg, func(m *Machine, i int) (Action, bool) {
 			if i >= n {
 				return Action{}, false
@@ -334,10 +352,15 @@ func replayFile(t *testing.T, p *WorldProp, path string) {
 // knownFindings are loaded from /verif/known_findings.txt (never written at run time).
 type knownFinding struct {
 	Property string
-	ID       string
+	ID       string // invariant id
+	Sig      string // name of the root-cause signature (a Go predicate of the property decides membership)
+	Match    string // substring the violation message must contain ("_" stands for a blank)
 	Text     string
 	Replay   string
 }
+
+// Name identifies a listed finding.
+func (k knownFinding) Name() string { return k.ID + "/" + k.Sig }
 
 func findingsDir() string {
 	if d := os.Getenv("VERIF_ROOT"); d != "" {
@@ -370,6 +393,10 @@ func loadKnown(prop string) []knownFinding {
 				kf.ID = strings.TrimPrefix(f, "id=")
 			case strings.HasPrefix(f, "replay="):
 				kf.Replay = strings.TrimPrefix(f, "replay=")
+			case strings.HasPrefix(f, "sig="):
+				kf.Sig = strings.TrimPrefix(f, "sig=")
+			case strings.HasPrefix(f, "match="):
+				kf.Match = strings.ReplaceAll(strings.TrimPrefix(f, "match="), "_", " ")
 			default:
 				text = append(text, f)
 			}
@@ -430,12 +457,12 @@ func replayKnown(t *testing.T, p *WorldProp) {
 				return cf.Actions[i], true
 			})
 		}()
-		if rf.failed && strings.Contains(rf.msg, kf.ID) {
-			act[kf.ID] = true
-			fmt.Printf("KNOWN-FINDING: property=%s %s %s\n", p.ID, kf.ID, kf.Text)
+		if rf.failed && strings.Contains(rf.msg, kf.ID) && strings.Contains(rf.msg, kf.Match) {
+			act[kf.Name()] = true
+			fmt.Printf("KNOWN-FINDING: property=%s %s %s\n", p.ID, kf.Name(), kf.Text)
 			st := getStats(p.ID)
 			statsMu.Lock()
-			st.Known = append(st.Known, kf.ID)
+			st.Known = append(st.Known, kf.Name())
 			statsMu.Unlock()
 		}
 	}
